@@ -169,7 +169,7 @@ func (c *Ctx) layoutSchema() string {
 		return freshDefOther
 	}
 	p := ps[c.R.Intn(len(ps))]
-	l := schema.Layout{Indent: []string{"    ", "\t", "  ", ""}[c.R.Intn(4)], CRLF: c.R.Chance(1, 4), OneLine: c.R.Chance(1, 4), Comments: true}
+	l := schema.Layout{Indent: []string{"    ", "\t", "  ", ""}[c.R.Intn(4)], CRLF: c.R.Chance(1, 4), OneLine: c.R.Chance(1, 4), Comments: true, Block: c.R.Bool()}
 	return p.Schema.PrintLayout(l)
 }
 
@@ -299,6 +299,23 @@ func execReadFile(n *Node, sc *Scenario) *Violation {
 		sc.Extra["outcome"] = "error"
 	} else {
 		sc.Extra["outcome"] = "ok"
+	}
+	if sc.RFault == nil && sc.Sched != nil && (len(sc.Sched.Chunks) > 0 || sc.Sched.Repeat > 0) {
+		// the same bytes delivered in one piece must give the same answer
+		whole := parse(sc.Input, nil, nil, sc.Reader)
+		if !whole.Call.Panicked {
+			e1, e2 := "", ""
+			if po.Err != nil {
+				e1 = po.Err.Error()
+			}
+			if whole.Err != nil {
+				e2 = whole.Err.Error()
+			}
+			if e1 != e2 || (po.Err == nil && visibleHash(po.File) != visibleHash(whole.File)) {
+				return &Violation{Class: "nondeterministic-output", Signature: "chunking-dependent|readfile",
+					Detail: fmt.Sprintf("ReadFile of the same %d bytes gives a different result when the reader delivers them in chunks (%s): %q vs %q", len(sc.Input), sc.Sched.Name, clipStr(e1, 120), clipStr(e2, 120))}
+			}
+		}
 	}
 	if po.Link.ErrReturned && po.Err == nil {
 		mode := "permanent"
